@@ -82,6 +82,12 @@ def make_run_cases(tagger):
             tags, nontrivial = tagger(c, im)
             if not in_h:
                 spec = None      # outside the grammar: nothing is demanded, only impl-vs-model is compared
+            if any(g[0] == 'hang' for g in im) and model is not None and sum(len(g[1]) for g in model) > 2000:
+                # the watchdog stopped the implementation in a session in which the model, too, has thousands of listener calls
+                # (listeners that register each other: the calls double with every event) — too big to run, not a verdict
+                results.append(Result(to_json_case(c), im, None, None, corr_ok=None, prop_ok=None, in_h=False, nontrivial=False,
+                                      tags=tags + ['skipped:listener-calls-explode']))
+                continue
             results.append(Result(to_json_case(c), im, model, spec, in_h=in_h, nontrivial=nontrivial, tags=tags))
         return results
     return run_cases
@@ -97,7 +103,9 @@ def shrink_ops(result, drv, run_cases):
             r = run_cases([to_json_case(c)], drv, 'quick')[0]
         except Exception:
             return None
-        return r if (r.prop_ok is False) else None
+        # a candidate counts only if it is still a well-formed session (inside the reply grammar) on which the implementation and the
+        # model agree as they did on the original — otherwise dropping an op has merely produced a different, meaningless case
+        return r if (r.prop_ok is False and r.in_h and r.corr_ok == result.corr_ok) else None
     ops = list(case['ops'])
     tls = dict(case['tls'])
     i = len(ops) - 1
